@@ -2,6 +2,7 @@ package props
 
 import (
 	"fmt"
+	"sort"
 	"strings"
 	"sync"
 	"testing"
@@ -281,6 +282,114 @@ func sqlBoundaryInputs() []string {
 	return sqlBoundaryVal
 }
 
+// fpRealisations: for every fingerprint key of the shipped table, inputs built from
+// representative tokens of each class (picked from the keyword table itself for the word
+// classes) that the REFERENCE folds to exactly that fingerprint. Every blacklist entry that
+// can be realised this way is then exercised at least once by the differential, so an entry
+// that the look-up can no longer reach is noticed.
+var (
+	fpRealOnce  sync.Once
+	fpRealVal   []string
+	fpRealKeys  int
+	fpRealTotal int
+)
+
+func fpRealisations() ([]string, int, int) {
+	fpRealOnce.Do(func() {
+		kwt := kwTab()
+		reps := map[byte][]string{
+			'1': {"1", "2.5"}, 'n': {"foo", "x_y"}, 's': {"'a'", "\"b\""}, 'v': {"@v", "@@x"}, 'o': {"=", "*", "<>"}, '&': {"and", "or", "||"},
+			'c': {"/*c*/", "-- x"}, '(': {"("}, ')': {")"}, ',': {","}, ';': {";"}, ':': {":"}, '.': {"."}, '{': {"{"}, '}': {"}"}, '?': {"?"}, '\\': {"\\"}, 'X': {"/*!x*/", "/*/**/*/"},
+		}
+		// word classes: up to three single-word, letters-only keys per class, shortest first
+		var keys []string
+		for k := range kwt {
+			keys = append(keys, k)
+		}
+		sort.Slice(keys, func(i, j int) bool {
+			if len(keys[i]) != len(keys[j]) {
+				return len(keys[i]) < len(keys[j])
+			}
+			return keys[i] < keys[j]
+		})
+		for _, k := range keys {
+			c := kwt[k]
+			if strings.IndexByte("kUBEtfAT", c) < 0 || len(reps[c]) >= 3 || len(k) < 3 {
+				continue
+			}
+			ok := true
+			for i := 0; i < len(k); i++ {
+				if k[i] < 'A' || k[i] > 'Z' {
+					ok = false
+				}
+			}
+			if ok {
+				reps[c] = append(reps[c], gen.LowerASCII(k))
+			}
+		}
+		reps['f'] = append(reps['f'], "sleep")
+		var fps []string
+		for k, v := range kwt {
+			if v == 'F' && len(k) >= 2 && k[0] == '0' {
+				fps = append(fps, k[1:])
+			}
+		}
+		sort.Strings(fps)
+		fpRealTotal = len(fps)
+		classOf := func(u byte) []byte { // table keys are upper-cased class strings
+			var out []byte
+			for _, c := range []byte(sqlClassAlphabet) {
+				uc := c
+				if uc >= 'a' && uc <= 'z' {
+					uc -= 32
+				}
+				if uc == u {
+					out = append(out, c)
+				}
+			}
+			return out
+		}
+		seen := map[string]bool{}
+		for _, fp := range fps {
+			// the key is upper-cased: U may mean 'U', K may mean 'k', ... resolve each position to its class(es)
+			var classes [][]byte
+			for i := 0; i < len(fp); i++ {
+				classes = append(classes, classOf(fp[i]))
+			}
+			found := 0
+			var try func(i int, parts []string, want []byte)
+			try = func(i int, parts []string, want []byte) {
+				if found >= 2 {
+					return
+				}
+				if i == len(classes) {
+					in := strings.Join(parts, " ")
+					r := refsqli.Fingerprint(in, fNone|fANSI, kwt, portD)
+					if r.FP == string(want) && r.Blacklist && !seen[in] {
+						seen[in] = true
+						fpRealVal = append(fpRealVal, in)
+						found++
+					}
+					return
+				}
+				for _, c := range classes[i] {
+					for ri, rep := range reps[c] {
+						if ri > 0 && found > 0 {
+							break
+						}
+						try(i+1, append(parts, rep), append(want, c))
+					}
+				}
+			}
+			try(0, nil, nil)
+			if found > 0 {
+				fpRealKeys++
+			}
+		}
+	})
+	return fpRealVal, fpRealKeys, fpRealTotal
+}
+
 func sqlCase(in string) ev.Case { return ev.Case{Kind: "diff", In: in} }
 
 // sqlTruncations: every prefix of every literal form and of every corpus entry (G4).
@@ -387,6 +496,12 @@ func TestC06(t *testing.T) {
 			judge(w, s)
 		}
 	})
+
+	fpr, fpKeys, fpTotal := fpRealisations()
+	p = c.rec.NewPart("fingerprint_realisations", fmt.Sprintf("inputs built from class representatives that the reference folds to exactly a blacklist key: %d of the %d fingerprint keys realised (up to 2 inputs each)", fpKeys, fpTotal), false, true, "")
+	c.ParRange(p, int64(len(fpr)), func(w *Worker, i int64) { judge(w, fpr[i]) })
+	c.rec.Extra["fingerprint_keys_realised"] = fpKeys
+	c.rec.Extra["fingerprint_keys_total"] = fpTotal
 
 	bnd := sqlBoundaryInputs()
 	p = c.rec.NewPart("boundary_inputs", "slot-dependent constructs behind 0..5 stable tokens; word pairs of every length pair around the 31/32-byte clip; long words ending in / containing keywords; multi-byte characters across the clip; closing quotes beyond the clip behind backslash runs; BOM-prefixed fixtures", false, true, "")
